@@ -96,6 +96,11 @@ def garbage(framing, side):
     ev.append(('bad-checksum', bytes(bad)))
     m = dict(kind='req', fc=3, address=0, count=1) if side == 'req' else dict(kind='rsp', fc=3, registers=[7])
     ev.append(('foreign-unit', adu.build(framing, FOREIGN, pdu.encode(m))))
+    # what else travels on a shared line: another station's exception reply (checksum right, function code with the
+    # error bit), and -- seen by a receiver of requests -- an exception reply carrying its own unit id
+    ev.append(('foreign-unit-exception', adu.build(framing, FOREIGN, bytes([0x83, 0x02]))))
+    if side == 'req':
+        ev.append(('own-unit-exception', adu.build(framing, UNIT, bytes([0x83, 0x02]))))
     for k in range(1, len(good)):
         ev.append(('trunc%d' % k, good[:k]))
     mid = len(good) // 2
